@@ -221,6 +221,7 @@ fn attrs_text(case: &Case) -> String {
         .filter_map(|(n, a)| match a {
             Attr::Int(v) => Some(format!("{n}={v}")),
             Attr::Ints(v) => Some(format!("{n}={}", hcommon::join(v.iter(), ":"))),
+            Attr::Str(v) if !v.contains([' ', ',', '|', '#']) => Some(format!("{n}={v}")),
             Attr::Tensor(t) => match (&t.data, t.dtype) {
                 (onnx_enc::TensorData::Raw(b), 7) if b.len() == 8 => Some(format!("{n}={}", i64::from_le_bytes(b[..8].try_into().unwrap()))),
                 (onnx_enc::TensorData::Raw(b), 6) if b.len() == 4 => Some(format!("{n}={}", i32::from_le_bytes(b[..4].try_into().unwrap()))),
@@ -480,7 +481,7 @@ fn graph_case(cx: &mut Ctx, rng: &mut Rng) {
         ..Default::default()
     };
     let bytes = encode_model(&g);
-    let req = format!("graph b={b} k={k} c1={c1} outs={}", outs.join(","));
+    let req = format!("#graph b={b} k={k} c1={c1} outs={}", outs.join(","));
     let res = hcommon::catch(|| {
         let mut opts = rten::ModelOptions::with_all_ops();
         opts.enable_optimization(false);
@@ -839,10 +840,10 @@ fn run(args: &Args) {
         one_case_focus(&mut cx, &mut rng, &case, 50, Some(focus));
     }
     // Bounded exhaustive sweep of the conv / pool output-size arithmetic along one axis:
-    // in <= 12, kernel <= 4, stride <= 3, start / end pads <= 2, ceil_mode 0/1 (pools),
+    // in in 0..=12 (an empty axis included), kernel <= 4, stride <= 3, start / end pads <= 2, ceil_mode 0/1 (pools),
     // dilation <= 2 (Conv); fixed and symbolic input dims alternate.
     let mut n_sweep = 0usize;
-    for in_size in 1..=12usize {
+    for in_size in 0..=12usize {
         for k in 1..=4usize {
             for st in 1..=3usize {
                 for ps in 0..=2usize {
